@@ -16,6 +16,7 @@ type Readout struct {
 	Indexes map[string]*IdxRO  `json:"indexes"`
 	Edges   map[string]string  `json:"edges"` // "idx|node|rel|dir|T" -> canonical edge list
 	Rels    map[string]string  `json:"rels"`  // "idx|node|dir" -> canonical relation map (current)
+	Raw     bool               `json:"-"`     // produced by the reference model: vectors are logical values, compared by tolerance class
 }
 
 type IdxRO struct {
@@ -29,13 +30,17 @@ type IdxRO struct {
 	AutoLinks string            `json:"autolinks"`
 	Mem       string            `json:"mem"`
 	QAbsMax   float32           `json:"qabsmax"`
+	QAbsMin   float32           `json:"-"` // smallest trained range this index had during the run (set by the harness)
+	QAbsTop   float32           `json:"-"` // largest
+	Recodes   int               `json:"-"` // how often the int8 values were re-encoded (restart from a log re-trains the quantiser)
 	Cursor    []string          `json:"cursor"`
 	Vecs      map[string]*VecRO `json:"vecs"`
 }
 
 type VecRO struct {
-	Vec  []float32 `json:"vec"`
-	Meta string    `json:"meta"`
+	Vec   []float32 `json:"vec"`
+	Meta  string    `json:"meta"`
+	Class string    `json:"class,omitempty"` // model side: precision class the value went through
 }
 
 // Universe tells the read-out which items to probe.
@@ -341,6 +346,67 @@ func vecClose(a, b []float32, wi, gi *IdxRO) bool {
 	return vecEq(a, b)
 }
 
+// vecCloseModel compares the logical value the model holds with what the engine
+// read back, by the precision class (C18 wording: exact for float32, one
+// rounding step for float16 and int8, clipping but never wrapping for int8).
+func vecCloseModel(w *VecRO, got []float32, gi *IdxRO) string {
+	if len(w.Vec) != len(got) {
+		return fmt.Sprintf("length %d vs %d", len(w.Vec), len(got))
+	}
+	abs := func(x float64) float64 {
+		if x < 0 {
+			return -x
+		}
+		return x
+	}
+	for i := range got {
+		b, g := float64(w.Vec[i]), float64(got[i])
+		if g != g {
+			return fmt.Sprintf("component %d is NaN", i)
+		}
+		switch w.Class {
+		case "float16":
+			tol := abs(b)*0.00049 + 6.1e-8
+			if abs(b-g) > tol {
+				return fmt.Sprintf("component %d off by %g (> one float16 rounding step %g)", i, abs(b-g), tol)
+			}
+		case "int8":
+			// The value was quantised with the range trained at that time and
+			// is re-encoded (with a re-trained range) whenever the index is
+			// rebuilt from the log: it may have been clipped at any range the
+			// index has had, never wrapped, and each re-encoding costs at most
+			// one more rounding step.
+			lo, hi := float64(gi.QAbsMin), float64(gi.QAbsTop)
+			if lo == 0 || float64(gi.QAbsMax) < lo {
+				lo = float64(gi.QAbsMax)
+			}
+			if float64(gi.QAbsMax) > hi {
+				hi = float64(gi.QAbsMax)
+			}
+			tol := hi/127*float64(1+gi.Recodes)*1.001 + 1e-6
+			if b*g < 0 && abs(g) > tol && abs(b) > tol {
+				return fmt.Sprintf("component %d changed sign: stored %g, read %g (wrapped?)", i, b, g)
+			}
+			floor := abs(b)
+			if lo < floor {
+				floor = lo
+			}
+			if abs(g) > abs(b)+tol || abs(g) < floor-tol {
+				return fmt.Sprintf("component %d: stored %g, read %g; allowed magnitude [%g, %g] (trained range %g..%g, %d re-encodings)", i, b, g, floor-tol, abs(b)+tol, lo, hi, gi.Recodes)
+			}
+		default:
+			if gi.Metric == "cosine" {
+				if abs(b-g) > 1e-6 {
+					return fmt.Sprintf("component %d off by %g (unit-normalised float32)", i, abs(b-g))
+				}
+			} else if w.Vec[i] != got[i] {
+				return fmt.Sprintf("component %d differs (float32 must be exact)", i)
+			}
+		}
+	}
+	return ""
+}
+
 // diffReadouts compares want (before) with got (after); nil if equal.
 func diffReadouts(want, got *Readout) *Diff {
 	for _, k := range sortedKeys(want.KV) {
@@ -381,7 +447,11 @@ func diffReadouts(want, got *Readout) *Diff {
 			if !ok {
 				return &Diff{"vector_missing", fmt.Sprintf("index %s id %s (meta %s) disappeared", n, id, wv.Meta)}
 			}
-			if !vecClose(wv.Vec, gv.Vec, wi, gi) {
+			if want.Raw {
+				if why := vecCloseModel(wv, gv.Vec, gi); why != "" {
+					return &Diff{"vector_value", fmt.Sprintf("index %s (%s/%s) id %s: %s; stored value (model) %v, read back %v", n, gi.Metric, gi.Prec, id, why, wv.Vec, gv.Vec)}
+				}
+			} else if !vecClose(wv.Vec, gv.Vec, wi, gi) {
 				return &Diff{"vector_value", fmt.Sprintf("index %s id %s vector want %v got %v", n, id, wv.Vec, gv.Vec)}
 			}
 			if wv.Meta != gv.Meta {
